@@ -1750,6 +1750,10 @@ class Engine:
                     return [(s, self.wrap(getattr(base.value, attr)(*pa)))]
                 except Exception:
                     pass
+        if (self._is_str(base)) and attr in ("format", "join", "lower", "upper", "capitalize", "strip", "lstrip", "rstrip",
+                                              "replace", "title", "zfill"):
+            term = ("bmeth", attr, vkey(base), tuple(vkey(a) for a in args), 0, 0)
+            return [(s, Str((("sym", term),)))]
         if attr in ("find", "rfind", "index", "count"):
             t = self.fresh(attr)
             s2 = s.copy()
